@@ -57,6 +57,16 @@ def get_block_diagonal_blocks(A):
     return blocks
 
 
+def get_connected_component_indices(A):
+    r"""Return, for each connected component of the (symmetrised) nonzero pattern of ``A``, the array of row/column indices belonging to it. The indices of one component need not be adjacent."""
+    assert A.shape[0] == A.shape[1], "matrix A should be square"
+
+    A_mirrored = (A != 0) | (A.T != 0)
+    graph_components = scipy.sparse.csgraph.connected_components(A_mirrored)[1]
+
+    return [np.where(graph_components == i)[0] for i in np.unique(graph_components)]
+
+
 class PropagatorGenerationException(Exception):
     """
     Thrown in case an error occurs while generating propagators.
@@ -204,9 +214,15 @@ class SystemOfShapes:
         # P_naive = sympy.simplify(sympy.exp(A * sympy.Symbol(Config().output_timestep_symbol)))
 
         # optimized: be explicit about block diagonal elements; much faster!
-        blocks = get_block_diagonal_blocks(np.array(A))
-        propagators = [sympy.simplify(sympy.exp(sympy.Matrix(block) * sympy.Symbol(Config().output_timestep_symbol))) for block in blocks]
-        P = sympy.Matrix(scipy.linalg.block_diag(*propagators))
+        # (coupled variables need not be adjacent in the system matrix: exponentiate each connected component on its own index set and scatter the result)
+        A_np = np.array(A)
+        P = sympy.zeros(*A.shape)
+        for idx in get_connected_component_indices(A_np):
+            block = sympy.Matrix(A_np[np.ix_(idx, idx)])
+            P_block = sympy.simplify(sympy.exp(block * sympy.Symbol(Config().output_timestep_symbol)))
+            for i_block, i in enumerate(idx):
+                for j_block, j in enumerate(idx):
+                    P[i, j] = P_block[i_block, j_block]
 
         # check the result
         if sympy.I in sympy.preorder_traversal(P):
